@@ -1,1 +1,165 @@
+//! The derive macro's implementation, callable in-process on proc_macro2 token streams.
+//! The four source files of /repo/specification-derive are included verbatim by path, so every
+//! run compiles the macro's current working tree.
 
+#![allow(dead_code)]
+
+#[path = "/repo/specification-derive/src/ast.rs"]
+mod ast;
+#[path = "/repo/specification-derive/src/attr.rs"]
+mod attr;
+#[path = "/repo/specification-derive/src/easy_ebml.rs"]
+mod easy_ebml;
+#[path = "/repo/specification-derive/src/pathing.rs"]
+mod pathing;
+
+use std::collections::BTreeMap;
+use std::panic::{catch_unwind, AssertUnwindSafe};
+
+use proc_macro2::TokenStream;
+use quote::ToTokens;
+use syn::{ItemEnum, ItemImpl};
+
+#[derive(Debug, Clone, PartialEq, Eq)]
+pub enum Outcome {
+    /// macro succeeded: generated tokens as a string
+    Ok(String),
+    /// macro returned a compile error
+    Err(String),
+    /// macro body panicked (also a compile error for the user)
+    Panic(String),
+    /// the source text is not even an enum / easy_ebml body (harness-side problem or syntax-level rejection)
+    Parse(String),
+}
+
+fn guard(f: impl FnOnce() -> Outcome) -> Outcome {
+    match catch_unwind(AssertUnwindSafe(f)) {
+        Ok(o) => o,
+        Err(p) => {
+            let m = if let Some(s) = p.downcast_ref::<&str>() {
+                s.to_string()
+            } else if let Some(s) = p.downcast_ref::<String>() {
+                s.clone()
+            } else {
+                "<panic>".into()
+            };
+            Outcome::Panic(m)
+        }
+    }
+}
+
+/// `src` = the enum item as the user writes it under `#[ebml_specification]` (without that attribute itself)
+pub fn expand_attribute(src: &str) -> Outcome {
+    guard(|| {
+        let ts: TokenStream = match src.parse() {
+            Ok(t) => t,
+            Err(e) => return Outcome::Parse(format!("lex: {}", e)),
+        };
+        let mut item: ItemEnum = match syn::parse2(ts) {
+            Ok(i) => i,
+            Err(e) => return Outcome::Parse(format!("not an enum: {}", e)),
+        };
+        match attr::impl_ebml_specification(&mut item) {
+            Ok(t) => Outcome::Ok(t.to_string()),
+            Err(e) => Outcome::Err(e.to_string()),
+        }
+    })
+}
+
+/// `src` = the body of `easy_ebml! { ... }`
+pub fn expand_easy(src: &str) -> Outcome {
+    guard(|| {
+        let ts: TokenStream = match src.parse() {
+            Ok(t) => t,
+            Err(e) => return Outcome::Parse(format!("lex: {}", e)),
+        };
+        let parsed: easy_ebml::EasyEBML = match syn::parse2(ts) {
+            Ok(p) => p,
+            Err(e) => return Outcome::Err(format!("easy_ebml syntax: {}", e)),
+        };
+        let lowered = match parsed.implement() {
+            Ok(t) => t,
+            Err(e) => return Outcome::Err(e.to_string()),
+        };
+        // the lowered item carries #[ebml_iterable::specs::ebml_specification] as its first attribute: rustc would now
+        // invoke the attribute macro with the item minus that attribute
+        let mut item: ItemEnum = match syn::parse2(lowered) {
+            Ok(i) => i,
+            Err(e) => return Outcome::Err(format!("easy_ebml produced something that is not an enum: {}", e)),
+        };
+        let before = item.attrs.len();
+        item.attrs.retain(|a| a.path.segments.last().map(|s| s.ident != "ebml_specification").unwrap_or(true));
+        if item.attrs.len() + 1 != before {
+            return Outcome::Err("easy_ebml did not attach exactly one #[ebml_specification] attribute".into());
+        }
+        match attr::impl_ebml_specification(&mut item) {
+            Ok(t) => Outcome::Ok(t.to_string()),
+            Err(e) => Outcome::Err(e.to_string()),
+        }
+    })
+}
+
+/// Generated code read back as tables of strings (whitespace-free token text).
+#[derive(Debug, Default, Clone)]
+pub struct Interp {
+    pub enum_name: String,
+    pub enum_attrs: Vec<String>,
+    /// (variant, field types)
+    pub variants: Vec<(String, String)>,
+    /// per generated fn: list of (pattern, body) of its top-level match; fns without a match have one ("", body)
+    pub fns: BTreeMap<String, Vec<(String, String)>>,
+    pub impl_traits: Vec<String>,
+}
+
+fn squash(t: impl ToTokens) -> String {
+    t.to_token_stream().to_string().chars().filter(|c| !c.is_whitespace()).collect()
+}
+
+pub fn interpret(tokens: &str) -> Result<Interp, String> {
+    let file: syn::File = syn::parse_str(tokens).map_err(|e| format!("generated code does not parse: {}", e))?;
+    let mut out = Interp::default();
+    for item in file.items {
+        match item {
+            syn::Item::Enum(e) => {
+                out.enum_name = e.ident.to_string();
+                out.enum_attrs = e.attrs.iter().map(squash).collect();
+                for v in e.variants {
+                    if !v.attrs.is_empty() {
+                        return Err(format!("variant {} still carries attributes: {}", v.ident, v.attrs.iter().map(squash).collect::<Vec<_>>().join(" ")));
+                    }
+                    out.variants.push((v.ident.to_string(), squash(&v.fields)));
+                }
+            }
+            syn::Item::Impl(ItemImpl { trait_, items, .. }) => {
+                if let Some((_, path, _)) = trait_ {
+                    out.impl_traits.push(squash(&path));
+                }
+                for it in items {
+                    if let syn::ImplItem::Method(m) = it {
+                        let name = m.sig.ident.to_string();
+                        let mut arms = Vec::new();
+                        let stmts = &m.block.stmts;
+                        match stmts.last() {
+                            Some(syn::Stmt::Expr(syn::Expr::Match(mm))) if stmts.len() == 1 => {
+                                arms.push(("<scrutinee>".to_string(), squash(&mm.expr)));
+                                for a in &mm.arms {
+                                    if a.guard.is_some() {
+                                        return Err(format!("fn {}: match arm with a guard", name));
+                                    }
+                                    arms.push((squash(&a.pat), squash(&a.body)));
+                                }
+                            }
+                            Some(other) if stmts.len() == 1 => arms.push(("".to_string(), squash(other))),
+                            _ => return Err(format!("fn {}: unexpected body shape", name)),
+                        }
+                        if out.fns.insert(name.clone(), arms).is_some() {
+                            return Err(format!("fn {} generated twice", name));
+                        }
+                    }
+                }
+            }
+            other => return Err(format!("unexpected generated item: {}", squash(&other).chars().take(80).collect::<String>())),
+        }
+    }
+    Ok(out)
+}
